@@ -148,7 +148,7 @@ fn check_spectrum(label: &str, x: &RefArray) -> (u64, Vec<Viol>) {
             continue;
         }
         let a = stat(st, &base);
-        for (m0, m1) in [(1.0, 0.0), (0.0, 1.0), (1000.0, 1.0), (1.0, 1000.0), (1000.0, 1000.0)] {
+        for (m0, m1) in [(1.0, 0.0), (0.0, 1.0), (1000.0, 1.0), (1.0, 1000.0), (1000.0, 1000.0), (1e17, 3.0), (7.0, 1e17), (1e17, 1e17), (1e150, 1e150)] {
             n += 1;
             let mut y = base.clone();
             y.data[0] = m0;
@@ -300,7 +300,7 @@ fn eval_cli(x: &RefArray, scratch: &Scratch) -> (u64, Vec<Viol>) {
 
 pub fn run(tier: Tier) -> i32 {
     let mut rep = Report::new("C14", tier, "exploration");
-    rep.rule = "relations between two evaluations of the implementation, each on every (shape, value set): f3/f4 = linear combinations of f2 of the two-population marginals (real marginalize + normalize); stat(fold_0 x) = stat(x) for the 12 listed statistics; independence of the two monomorphic cells (values {0,1,1000}) for all but sum/f2/f3/f4; population swap for f2, Fst, pi_xy, KING, R0, R1; scaling by c in {2, 1/2, 3, 1e-3, 1e6}. Shapes: 1-D n+1 = 3..12, 2-D {2..6}^2, 3-D {2..4}^3, 4-D {2,3}^4, always including unequal lengths; value sets: every basis spectrum, every two-cell spectrum (small shapes), a ramp and a powers-of-two spectrum. L2: `sfs stat` with all admissible statistics in one -s list vs each alone, `sfs fold --fill zero | sfs stat`, scaled inputs. Non-trivial = unequal axis lengths or a non-basis spectrum.".into();
+    rep.rule = "relations between two evaluations of the implementation, each on every (shape, value set): f3/f4 = linear combinations of f2 of the two-population marginals (real marginalize + normalize); stat(fold_0 x) = stat(x) for the 12 listed statistics; independence of the two monomorphic cells (values {0, 1, 1000, 1e17, 1e150}: also values next to which the polymorphic mass vanishes in floating point) for all but sum/f2/f3/f4; population swap for f2, Fst, pi_xy, KING, R0, R1; scaling by c in {2, 1/2, 3, 1e-3, 1e6}. Shapes: 1-D n+1 = 3..12, 2-D {2..6}^2, 3-D {2..4}^3, 4-D {2,3}^4, always including unequal lengths; value sets: every basis spectrum, every two-cell spectrum (small shapes), a ramp and a powers-of-two spectrum. L2: `sfs stat` with all admissible statistics in one -s list vs each alone, `sfs fold --fill zero | sfs stat`, scaled inputs. Non-trivial = unequal axis lengths or a non-basis spectrum.".into();
     let mut shp: Vec<Vec<usize>> = (3..=12).map(|n| vec![n]).collect();
     shp.extend(shapes(2, 2, tier.pick(5, 6), usize::MAX).into_iter().filter(|s| s.len() == 2));
     shp.extend(shapes(3, 2, tier.pick(3, 4), usize::MAX).into_iter().filter(|s| s.len() == 3));
